@@ -556,7 +556,7 @@ def corpus_disc(tier, seed):
 # ---------------------------------------------------------------------------------------
 # C13 EnumIs / EnumTryAs
 
-IS_IDENTS = ['Red', 'Blue2', 'HTTPStatus', 'X1Y2', 'GreenLeaf', 'A', 'Orange9Light', 'NASARocket3']
+IS_IDENTS = ['Red', 'Blue2', 'HTTPStatus', 'X1Y2', 'GreenLeaf', 'A', 'Orange9Light', 'NASARocket3', 'V4l2', 'Sha256sum', 'Utf8To16Le']
 
 def corpus_is(tier, seed):
     nm = Namer()
@@ -570,6 +570,9 @@ def corpus_is(tier, seed):
     A([V('Unit'), V('Gen', 'tuple', ['T']), V('Pair', 'tuple', ['T', 'u8']), V('Named', 'named', ['T', 'u8'])])
     A([V('Ref', 'tuple', ["&'a str", 'u8']), V('NASARocket3'), V('Gone', disabled=True)])
     A([V('Only', 'tuple', ['usize'])])
+    # exactly one enabled variant next to disabled ones (unit and data-carrying)
+    A([V('Up'), V('Down', disabled=True), V('Side', 'tuple', ['u8'], disabled=True)])
+    A([V('GoneFirst', disabled=True), V('V4l2', 'tuple', ['u8', 'bool'])])
     if tier == 'quick':
         return out
     for k in range(30):
@@ -586,7 +589,7 @@ def corpus_is(tier, seed):
 # ---------------------------------------------------------------------------------------
 # C14 EnumMessage / C15 EnumProperty
 
-DOCS = [[], [' doc one'], ['  two spaces', ' second'], ['no leading space', '', ' after an empty line'], [' quote " backslash \\ brace {x}', ' \u00fcnicode', ' third', '    indented']]
+DOCS = [[], [' doc one'], ['  two spaces', ' second'], ['\tTabbed line'], ['\u00a0nbsp first', '\tthen tab', ' then space'], ['no leading space', '', ' after an empty line'], [' quote " backslash \\ brace {x}', ' \u00fcnicode', ' third', '    indented']]
 
 def corpus_msg(tier, seed):
     nm = Namer()
@@ -602,6 +605,9 @@ def corpus_msg(tier, seed):
     A([M(V('RedFox'), None, 'detail only', DOCS[3]), M(V('BlueSky', ts='bleu'), '', '', DOCS[4]), M(V('Gone', disabled=True), 'hidden', 'hidden', DOCS[2]), M(V('Plain', ser=['p', 'plain']), 'msg')], serialize_all='snake_case')
     A([M(V('G', 'tuple', ['T']), 'generic', None, DOCS[1]), M(V('H'))])
     A([M(V('GoneA', disabled=True), 'x'), M(V('GoneB', disabled=True))])
+    # detailed_message written before message, attributes split; doc lines starting with a tab / NBSP keep it
+    A([M(V('First'), 'plain', 'detailed', DOCS[3]), M(V('Second', 'tuple', ['u8']), 'only plain', None, DOCS[4]), M(V('Third'), None, 'only detailed')]).attr_layout = 'split_rev'
+    A([M(V('First'), 'plain', 'detailed', DOCS[4]), M(V('Second'), 'p2', 'd2')]).attr_layout = 'split'
     if tier == 'quick':
         return out
     styles = [None, 'kebab-case', 'SCREAMING_SNAKE_CASE', 'camelCase', 'title_case']
@@ -616,7 +622,7 @@ def corpus_msg(tier, seed):
                   ser=[[], [stem], [stem, stem.upper() + '2']][(k + i) % 3], ts=[None, None, stem + '!'][(k + 2 * i) % 3])
             M(v, [None, 'msg %d' % i, ''][(k + i) % 3], [None, 'detail %d' % i][(k // 2 + i) % 2], DOCS[(k + i) % len(DOCS)])
             vs.append(v)
-        A(vs, serialize_all=styles[k % len(styles)])
+        A(vs, serialize_all=styles[k % len(styles)]).attr_layout = ['joined', 'split', 'split_rev'][k % 3]
     return out
 
 def corpus_props(tier, seed):
@@ -633,6 +639,8 @@ def corpus_props(tier, seed):
        P(V('C', 'named', ['u8'], disabled=True), [('a', 'hidden')]), V('D')])
     A([P(V('Neg'), [('n', -3), ('big', 9223372036854775807), ('zero', 0)]), P(V('Empty'), [('s', ''), ('u', '\u00fc \"q\"')]), P(V('Gen', 'tuple', ['T']), [('n', 'not-an-int')])])
     A([V('NoProps'), V('Gone', disabled=True)])
+    A([P(V('Level'), [('level', 'top')], [('level', 3)], [('level', True)]), P(V('IdStr'), [('id', '7'), ('on', 'true')]), P(V('IdInt'), [('id', 7), ('on', True)]),
+       P(V('IdStr2', 'tuple', ['u8']), [('id', '7'), ('on', 'true')])]).attr_layout = 'split'
     if tier == 'quick':
         return out
     keys = ['a', 'b', 'c', 'color', 'Type', 'x1']
@@ -650,13 +658,13 @@ def corpus_props(tier, seed):
             for j in range(min(np_, 6)):
                 key = keys[(k + i + j) % len(keys)]
                 val = vals[(k + 2 * i + j) % len(vals)]
-                if (key, type(val)) in used or key in [u[0] for u in used]:
+                if (key, type(val)) in used:
                     continue
                 used.append((key, type(val)))
                 groups[j % len(groups)].append((key, val))
             v.props = [g for g in groups if g]
             vs.append(v)
-        A(vs)
+        A(vs).attr_layout = ['joined', 'split', 'split_rev'][k % 3]
     return out
 
 
